@@ -90,7 +90,7 @@ def consume (db : DB) (ci : Nat) (it : ChangeIter) (k : Int) : DB × ChangeIter 
     let n := if k < 0 then ps.length else min k.toNat ps.length
     let taken := ps.take n
     let (it, db) := taken.foldl (fun (acc : ChangeIter × DB) c =>
-        if c.deleted then ({ acc.1 with deleteRevision := c.rev }, acc.2.setTrackerRev acc.1.tracker c.rev)
+        if c.deleted then ({ acc.1 with deleteRevision := c.rev }, { (acc.2.setTrackerRev acc.1.tracker c.rev) with gcTrig := true })
         else ({ acc.1 with revision := c.rev }, acc.2)) (it, db)
     let exhausted := k < 0 ∨ k.toNat > ps.length
     let it := { it with pending := if exhausted then none else some (ps.drop n) }
@@ -179,6 +179,18 @@ def step (s : S) (ws0 : List String) : S × String :=
               ({ s with db }, "closed " ++ (if taken.isEmpty then "." else " ".intercalate (taken.map showChange)))
           | none => (s, "bad-op")
         | _, _, _ => (s, "bad-op")
+      | "ccloserace", [c] =>
+        if s.db.wtxn.isSome || s.db.gcPaused then (s, "bad-op") else
+        match c.toNat? with
+        | some ci =>
+          match s.db.iters[ci]? with
+          | some it =>
+            -- a pending trigger makes the collector scan now, before the tracker is removed
+            let db := if s.db.gcTrig then { s.db with gcDead := gcScan s.db, gcPaused := true, gcTrig := false } else s.db
+            let root := db.root.mapIdx fun i t => if i = it.table then { t with trackers := t.trackers.filter (· ≠ it.tracker) } else t
+            ({ s with db := { db with root, gcTrig := true, iters := db.iters.set! ci { it with closed := true, pending := none } } }, "ok")
+          | none => (s, "bad-op")
+        | none => (s, "bad-op")
       | "cclose", [c] =>
         if s.db.wtxn.isSome then (s, "bad-op") else
         match c.toNat? with
@@ -186,7 +198,7 @@ def step (s : S) (ws0 : List String) : S × String :=
           match s.db.iters[ci]? with
           | some it =>
             let root := s.db.root.mapIdx fun i t => if i = it.table then { t with trackers := t.trackers.filter (· ≠ it.tracker) } else t
-            ({ s with db := { s.db with root, iters := s.db.iters.set! ci { it with closed := true, pending := none } } }, "ok")
+            ({ s with db := { s.db with root, gcTrig := true, iters := s.db.iters.set! ci { it with closed := true, pending := none } } }, "ok")
           | none => (s, "bad-op")
         | none => (s, "bad-op")
       | "initdone", [d] =>
@@ -274,10 +286,16 @@ def step (s : S) (ws0 : List String) : S × String :=
   | ["gc"] =>
     if s.db.wtxn.isSome then (s, "bad-op") else
     let db := if s.db.gcPaused then { (gcApply s.db s.db.gcDead) with gcDead := [], gcPaused := false } else s.db
-    ({ s with db := gcApply db (gcScan db) }, "ok")
+    ({ s with db := { (gcApply db (gcScan db)) with gcTrig := false } }, "ok")
+  | ["gcidle"] =>
+    if s.db.wtxn.isSome then (s, "bad-op") else
+    let paused := s.db.gcPaused
+    let db := if paused then { (gcApply s.db s.db.gcDead) with gcDead := [], gcPaused := false } else s.db
+    if db.gcTrig then ({ s with db := { (gcApply db (gcScan db)) with gcTrig := false } }, "ran")
+    else ({ s with db }, if paused then "ran" else "idle")
   | ["gcscan"] =>
     if s.db.gcPaused then (s, "ok")
-    else ({ s with db := { s.db with gcDead := gcScan s.db, gcPaused := true } }, "ok")
+    else ({ s with db := { s.db with gcDead := gcScan s.db, gcPaused := true, gcTrig := false } }, "ok")
   | ["gcapply"] =>
     if s.db.wtxn.isSome then (s, "bad-op") else
     if s.db.gcPaused then ({ s with db := { (gcApply s.db s.db.gcDead) with gcDead := [], gcPaused := false } }, "ok")
